@@ -307,17 +307,22 @@ static int flt_load(struct module_data *m, HIO_HANDLE * f, const int start)
 
 	/* See if we have the synth parameters file */
 	am_synth = 0;
-	snprintf(filename, 1024, "%s%s.NT", m->dirname, m->basename);
-	if ((nt = hio_open(filename, "rb")) == NULL) {
-		snprintf(filename, 1024, "%s%s.nt", m->dirname, m->basename);
-		if ((nt = hio_open(filename, "rb")) == NULL) {
-			snprintf(filename, 1024, "%s%s.AS", m->dirname,
-				 m->basename);
-			if ((nt = hio_open(filename, "rb")) == NULL) {
-				snprintf(filename, 1024, "%s%s.as", m->dirname,
-					 m->basename);
-				nt = hio_open(filename, "rb");
-			}
+	nt = NULL;
+	/* Only look for it when loading from a path. */
+	if (m->dirname != NULL && m->basename != NULL) {
+		snprintf(filename, 1024, "%s%s.NT", m->dirname, m->basename);
+		nt = hio_open(filename, "rb");
+		if (nt == NULL) {
+			snprintf(filename, 1024, "%s%s.nt", m->dirname, m->basename);
+			nt = hio_open(filename, "rb");
+		}
+		if (nt == NULL) {
+			snprintf(filename, 1024, "%s%s.AS", m->dirname, m->basename);
+			nt = hio_open(filename, "rb");
+		}
+		if (nt == NULL) {
+			snprintf(filename, 1024, "%s%s.as", m->dirname, m->basename);
+			nt = hio_open(filename, "rb");
 		}
 	}
 
